@@ -78,6 +78,7 @@ type Result struct {
 	Samples     []any            `json:"samples"`
 	Violations  []Violation      `json:"violations"`
 	Extra       map[string]any   `json:"extra,omitempty"`
+	Abort       bool             `json:"abort,omitempty"` // the process cannot go on (goroutines of a stalled case were left behind): the shard ends after this case
 	distinct    map[uint64]struct{}
 	sampleSeen  map[string]int
 }
@@ -133,6 +134,9 @@ func (c *Ctx) Violate(msg string, detail any) {
 }
 
 func (c *Ctx) Violated() bool { return c.violated }
+
+// Abort ends the shard after the current case: a stalled workload leaves goroutines behind that would run into the next case.
+func (c *Ctx) Abort() { c.res.Abort = true }
 
 func (c *Ctx) Logf(f string, a ...any) {
 	if c.Verbose {
